@@ -1,3 +1,4 @@
+import Plotink.Proofs.C16GenConv
 import Plotink.Proofs.C16Spec
 import Plotink.Proofs.C16GenBridge
 /-! # C16 — board-state round trips through the EBB3 layer are faithful
@@ -444,5 +445,20 @@ example := C16_gen_sequences exampleWorld.board none exampleWorld_inv.2.1 (by de
     rcases hop with rfl | rfl | rfl <;> trivial) exampleObj exampleObj_ready rfl
 
 end Regenerated
+
+open PyObj Gen in
+/-- **request types, regenerated code**: `motors_enable` sees a request only through `int(r)`. Every pair of requests that
+`int()` converts — bools, decimal numeral strings, ints — behaves exactly like the pair of integers it stands for (same
+value, same bytes written, same reads consumed, same object), so `C16_gen_motors` covers them with `r := int(request)`.
+(Seeded change C16_m14 dropped the conversion: equivalent on ints, different on `True`; this theorem is what then stops
+checking.) -/
+theorem C16_gen_motors_requests (fuel : Nat) (v1 v2 : PyObj.Val) (r1 r2 : Int)
+    (h1 : PyObj.b_int v1 = .ok (.int r1)) (h2 : PyObj.b_int v2 = .ok (.int r2)) (w : PyObj.World EBB3_Obj) :
+    EBBMotionWrap_motors_enable fuel v1 v2 w = EBBMotionWrap_motors_enable fuel (.int r1) (.int r2) w :=
+  C16Conv.motors_enable_conv fuel v1 v2 r1 r2 h1 h2 w
+
+/-- non-vacuity: `True` stands for 1, the numeral `'3'` for 3 -/
+example : PyObj.b_int (.bool true) = .ok (.int 1) ∧ PyObj.b_int (.str ['3']) = .ok (.int 3) := by
+  constructor <;> rfl
 
 end Plotink
